@@ -202,6 +202,8 @@ Proof.
         -- eapply not_alias_view; [exact Hs1 | exact E].
         -- eapply not_alias_view; [exact Hs0 | exact E].
       * rewrite upd_other by exact N. apply (inv_ok s I).
+  - (* IPutKeep: never part of a disciplined program *)
+    cbn [safe] in Hsafe. discriminate.
   - (* IWrite *)
     destruct (cur (ops s i)) as [b|] eqn:Ec; [|discriminate].
     inversion Hst; subst; clear Hst.
@@ -355,6 +357,8 @@ Proof.
     repeat split; try assumption.
     + eapply vrel_noalias; [exact Hs1 | exact Hm].
     + eapply vrel_noalias; [exact Hs0 | exact Hk].
+  - (* IPutKeep: never part of a disciplined program *)
+    cbn [safe] in Hsafe. discriminate.
   - (* IWrite *)
     destruct (cur (ops s i)) as [b|] eqn:Ec; [|discriminate].
     destruct (cur (ops t 0)) as [b'|] eqn:Ec'; [|contradiction].
